@@ -16,7 +16,7 @@ RULE = (
     "for each configuration of the alphabet ({Diffuse,Target} x channel sets x spectra, plus zero-survivor runs): EVERY "
     "write boundary k = 0..K of the run as a real process death (os._exit in a forked child right after the k-th write), "
     "EVERY stage {geometry, spot, spectrum, taus, decay, optical EAS, optical integral, radio EAS, SNR, radio integral} "
-    "as the site of one injected exception, and write_stages in {True, False}; the file left on disk is compared with a "
+    "as the site of one injected failure of each kind {Exception subclass, BaseException-only (interrupt)}, and write_stages in {True, False}; the file left on disk is compared with a "
     "reference model of 'stage -> columns and header keys it adds' written from the property text, and with the "
     "un-faulted final table. Distinct by (configuration, crash boundary | faulted stage, write_stages)."
 )
@@ -77,7 +77,7 @@ def cfg_of(spec):
     return sim.make_config(mode=spec["mode"], spectrum=spec["spectrum"], optical=spec["optical"], radio=spec["radio"], n=spec["n"], cloud=spec.get("cloud", "none"))
 
 
-def run_compute(spec, path, write_stages, crash_at=None, stage=None):
+def run_compute(spec, path, write_stages, crash_at=None, stage=None, fault_kind="error"):
     """returns ('ok', table) | ('raised', repr). crash_at: os._exit(9) right after that many writes."""
     cfg = cfg_of(spec)
 
@@ -87,12 +87,12 @@ def run_compute(spec, path, write_stages, crash_at=None, stage=None):
 
     with warnings.catch_warnings():
         warnings.simplefilter("ignore")
-        with faults.write_spy(on_boundary), faults.stage_fault(stage):
+        with faults.write_spy(on_boundary), faults.stage_fault(stage, fault_kind):
             if crash_at == 0:
                 os._exit(9)
             try:
                 t = sim.run(cfg, seed=spec.get("seed", 11), output_file=path, write_stages=write_stages)
-            except faults.InjectedFault as ex:
+            except (faults.InjectedFault, faults.InjectedInterrupt) as ex:
                 return "raised", repr(ex)
     return "ok", t
 
@@ -206,9 +206,10 @@ def job(a):
             kb = boundary_before_stage(spec["mode"], spec["optical"], spec["radio"], st)
             if kb is None or (len(final) == 0 and st != "geometry"):
                 return [], info
-            status, r = run_compute(spec, path, True, stage=st)
+            fk = case[2] if len(case) > 2 else "error"
+            status, r = run_compute(spec, path, True, stage=st, fault_kind=fk)
             if status != "raised":
-                out.append(("exception_propagates", f"InjectedFault from stage {st}", "compute() returned normally"))
+                out.append(("exception_propagates", f"injected {fk} from stage {st}", "compute() returned normally"))
             out += judge_file(path, spec, kb, final)
         elif kind == "nowrite":
             st = case[1]
@@ -229,7 +230,7 @@ def job(a):
             try:
                 before = sorted(os.listdir(tmp))
                 if st is None or boundary_before_stage(spec["mode"], spec["optical"], spec["radio"], st) is not None:
-                    status, r = run_compute(spec, path, False, stage=st)
+                    status, r = run_compute(spec, path, False, stage=st, fault_kind=case[2] if len(case) > 2 else "error")
                 after = sorted(os.listdir(tmp))
             finally:
                 hook_on[0] = False
@@ -268,10 +269,12 @@ def run(ctx):
         for k in (0, 1, K // 2):
             jobs.append((sp, ("crash", k, True)))
         for st in faults.STAGES:
-            jobs.append((sp, ("stage", st)))
+            for fk in faults.FAULT_CLASSES:
+                jobs.append((sp, ("stage", st, fk)))
         jobs.append((sp, ("nowrite", None)))
         for st in faults.STAGES:
-            jobs.append((sp, ("nowrite", st)))
+            for fk in faults.FAULT_CLASSES:
+                jobs.append((sp, ("nowrite", st, fk)))
     for sp in zero:
         jobs.append((sp, ("boundaries",)))
         jobs.append((sp, ("crash", 0, False)))
